@@ -228,8 +228,8 @@ def r06_9(ctx):
                 modes.update(a.strip() for a in g[len("p1 matches "):].split("|"))
     n = rowcmp.compare(cells, modes, lambda k, d: ctx.ob("R06.9", k, True, d),
                        lambda k, kind, d: ctx.ob("R06.9", k + "/" + kind, False, d, "html5ever tree_builder rules.rs step vs ref/whatwg_rows.py"),
-                       summaries=nf_common.crate_summaries(ctx, "html5ever"), only_modes=SKELETON_MODES)
-    ctx.floor("R06.9", "skeleton-row-situations", n, 150)
+                       summaries=nf_common.crate_summaries(ctx, "html5ever"), only_modes=SKELETON_MODES, extra_tokens=("eof",))
+    ctx.floor("R06.9", "skeleton-row-situations", n, 160)
 
 
 def run(ctx):
@@ -239,6 +239,9 @@ def run(ctx):
     ctx.rule("R06.13", "'reset the insertion mode appropriately' selects the standard's mode (R02.10): a template closed after </head> must not fall back to 'before head' and grow a second head")
     from .C02 import r02_10
     ctx.guard("R06.13", "reset-mode", lambda: ctx.under("R06.13", lambda: r02_10(ctx)))
+    ctx.rule("R06.15", "= R05.5: a DOCTYPE is appended only in the initial insertion mode, which is left on the same path (a second DOCTYPE before the root would be a second doctype child)")
+    from .C05 import r05_5
+    ctx.guard("R06.15", "doctype-once", lambda: ctx.under("R06.15", lambda: r05_5(ctx)))
     ctx.rule("R06.14", "mirroring an option into selectedcontent REPLACES the old children on every path (R20.9): no stale text node left beside the copy")
     from .C20 import r20_9
     ctx.guard("R06.14", "selectedcontent", lambda: ctx.under("R06.14", lambda: r20_9(ctx)))
@@ -258,7 +261,7 @@ def run(ctx):
     ctx.rule("R06.10", "the special category contains every HTML name that is certainly special (template, head, body, ... ): a stray end tag for an enclosing special element is ignored, not honoured")
     from .C02 import special_tag_html_rule
     ctx.guard("R06.10", "special", lambda: special_tag_html_rule(ctx, "R06.10"))
-    ctx.rule("R06.9", "the rows of the eleven insertion modes that create html, head, body / frameset and leave them are the standard's (steps and conditions)")
+    ctx.rule("R06.9", "the rows of the eleven insertion modes that create html, head, body / frameset and leave them are the standard's (steps and conditions), and so is the end-of-file row of every other mode (end of input in a table or template mode must still reach the rules that stop parsing with a body in place)")
     ctx.guard("R06.9", "skeleton-rows", lambda: r06_9(ctx))
     ctx.rule("R06.8", "the sets that bound 'clear the stack back to a ... context' contain html and template")
     ctx.guard("R06.8", "contexts", lambda: r06_8(ctx))
